@@ -147,6 +147,7 @@ def eval_site(ck, alpha, site, domain_override=None):
     universe = ev.universe
     env = {}
     dominfo = ""
+    extra_paths, domain_nonempty = [], None
     if site["mode"] == "loopvar":
         env[site["raw"]] = ("R",)
         if domain_override is not None:
@@ -181,6 +182,7 @@ def eval_site(ck, alpha, site, domain_override=None):
             domain, dominfo = domain_override
             env[site["raw"]] = ("R",)
             stmts = frag[1:]
+            extra_paths, domain_nonempty = [], None
             val = getattr(raw_stmt, "value", None)
             if (isinstance(val, ast.BoolOp) and isinstance(val.op, ast.Or) and len(val.values) == 2 and isinstance(val.values[1], ast.Constant)
                     and isinstance(val.values[1].value, (str, bytes))):
@@ -194,8 +196,8 @@ def eval_site(ck, alpha, site, domain_override=None):
                 domain_nonempty = domain - empty_tok
             elif val is not None and not (isinstance(val, ast.Call)):
                 raise Unsupported("raw token expression %s" % ast.unparse(val)[:60])
-    p0 = Path(domain if "domain_nonempty" not in dir() else domain_nonempty, env)
-    paths = ev.run_block(stmts, [p0] + (extra_paths if "extra_paths" in dir() else []))
+    p0 = Path(domain if domain_nonempty is None else domain_nonempty, env)
+    paths = ev.run_block(stmts, [p0] + extra_paths)
     refuse = ev.refuse_language(paths, domain)
     accept_flag = ev.empty
     for p in paths:
